@@ -98,7 +98,126 @@ fn run_mt(rep: &mut Rep, idx: &mut u64) {
     }
 }
 
+/// A request whose packet never made it onto the connection - the transport failed under it, or the application gave up on
+/// run() while the write was waiting - has no acknowledgement coming. The acknowledgements that do arrive later belong to
+/// the operations that were written: with pings, which share one key, the PINGRESP answering the second ping must complete
+/// the second ping.
+fn unwritten_requests(rep: &mut Rep) {
+    use crate::refcodec::{AckForm, AckKind, CPacket, SPacket};
+    use crate::sim::{Cmd, Sim};
+    use crate::spec::{ConnSpec, OpSpec, PubSpec, SubSpec, UnsubSpec};
+    rep.note("requests that never reached the wire: a ping / QoS 1 publish / subscribe / unsubscribe whose write fails at once, after 1 byte, or waits for ever and run() is dropped there; then run() again (or a new connection), the same kind of request again, and its acknowledgement: the second operation completes with it, the first has failed and stays failed");
+    let kinds: Vec<(&str, Box<dyn Fn(usize) -> OpSpec>)> = vec![
+        ("ping", Box::new(|_| OpSpec::Ping)),
+        ("pub1", Box::new(|j| OpSpec::Publish(PubSpec::simple(1, &format!("t/{j}"), b"x")))),
+        ("sub", Box::new(|j| OpSpec::Subscribe(SubSpec::simple(&format!("f/{j}"))))),
+        ("unsub", Box::new(|j| OpSpec::Unsubscribe(UnsubSpec::simple(&format!("u/{j}"))))),
+    ];
+    let mut idx = 23_000_000u64;
+    for (kname, mk) in &kinds {
+        for fault in 0..4u8 {
+            for accept in 0..2usize {
+                let id = format!("unwritten:{kname}:{fault}:{accept}");
+                idx += 1;
+                if !rep.take(idx, &id) {
+                    continue;
+                }
+                let mut sim = Sim::new(rep.seed);
+                sim.cmd(Cmd::Connect(ConnSpec::default()));
+                sim.settle();
+                sim.feed_packet(&SPacket::Connack { session_present: false, reason: 0, props: vec![] });
+                sim.settle();
+                sim.cmd(Cmd::Run);
+                sim.settle();
+                let at = sim.written_len() + accept;
+                match fault {
+                    0 | 1 => sim.writer.0.borrow_mut().stall_at = Some(at),
+                    _ => sim.writer.0.borrow_mut().err_at = Some(at),
+                }
+                let a = sim.start_op(0, mk(0));
+                sim.settle();
+                match fault {
+                    0 | 1 => {
+                        // the application gives up on run() while the write is waiting, the transport recovers, run() again.
+                        // (with one byte of the packet accepted the wire is torn: only the first operation's fate is judged then)
+                        sim.cancel_run();
+                        sim.settle();
+                        sim.writer.0.borrow_mut().stall_at = None;
+                        if fault == 1 {
+                            // ... on a new connection of the same Context
+                            sim.new_transport();
+                            sim.cmd(Cmd::Connect(ConnSpec::default()));
+                            sim.settle();
+                            sim.feed_packet(&SPacket::Connack { session_present: false, reason: 0, props: vec![] });
+                            sim.settle();
+                        }
+                        sim.cmd(Cmd::Run);
+                        sim.settle();
+                    }
+                    _ => {
+                        // the write failed, run() has returned; a new connection of the same Context
+                        sim.new_transport();
+                        sim.cmd(Cmd::Connect(ConnSpec::default()));
+                        sim.settle();
+                        sim.feed_packet(&SPacket::Connack { session_present: fault == 3, reason: 0, props: vec![] });
+                        sim.settle();
+                        sim.cmd(Cmd::Run);
+                        sim.settle();
+                    }
+                }
+                rep.add("evaluations", 1);
+                rep.add("unwritten_request_cases", 1);
+                rep.distinct(&("unwritten", kname, fault, accept));
+                for p in sim.panics.clone() {
+                    rep.violation(&format!("C05/panic/{p}"), &id, &format!("panic: {p}\n{}", sim.tail_log(30)));
+                }
+                let torn = fault == 0 && accept > 0;
+                if sim.run_result().is_some() || torn {
+                    // (a torn wire, or a run() that did not come back up, is for other properties to judge)
+                    if let Some(o) = &sim.ops[a].out {
+                        if o.is_ok() {
+                            rep.violation(&format!("C05/completed-without-its-ack/never-written/{kname}"), &id, &format!("the request was never written in full, yet it completed with {}\n{}", o.brief(), sim.tail_log(30)));
+                        }
+                    }
+                    continue;
+                }
+                sim.parse_wire();
+                let before = sim.wire.len();
+                let b = sim.start_op(0, mk(1));
+                sim.settle();
+                sim.parse_wire();
+                let ack = match sim.wire.get(before).map(|w| w.pkt.clone()) {
+                    Some(Ok(CPacket::Pingreq)) => Some(SPacket::Pingresp),
+                    Some(Ok(CPacket::Publish(p))) => Some(SPacket::Ack { kind: AckKind::Puback, id: p.id.unwrap_or(0), reason: 0, props: vec![], form: AckForm::Short2 }),
+                    Some(Ok(CPacket::Subscribe(x))) => Some(SPacket::Suback { id: x.id, props: vec![], reasons: vec![0] }),
+                    Some(Ok(CPacket::Unsubscribe(x))) => Some(SPacket::Unsuback { id: x.id, props: vec![], reasons: vec![0] }),
+                    _ => None,
+                };
+                let Some(ack) = ack else {
+                    rep.violation(&format!("C05/connection-given-up/second-request-not-written/{kname}"), &id, &format!("after the first request failed to be written the second one was not written either; run() = {:?}\n{}", sim.run_result(), sim.tail_log(30)));
+                    continue;
+                };
+                sim.feed_packet(&ack);
+                sim.settle();
+                let a_ok = sim.ops[a].out.as_ref().map(|o| o.is_ok()).unwrap_or(false);
+                let b_done = sim.ops[b].out.as_ref().map(|o| o.is_ok()).unwrap_or(false);
+                if a_ok {
+                    rep.violation(&format!("C05/completed-with-anothers-ack/never-written/{kname}"), &id, &format!("the first {kname} never reached the wire, the acknowledgement of the second one completed it: first = {:?}, second = {:?}\n{}", sim.ops[a].out.as_ref().map(|o| o.brief()), sim.ops[b].out.as_ref().map(|o| o.brief()), sim.tail_log(40)));
+                } else if !b_done {
+                    rep.violation(&format!("C05/still-pending-after-ack/{kname}/behind-a-never-written-request"), &id, &format!("second {kname} written and acknowledged, result {:?}; first = {:?}\n{}", sim.ops[b].out.as_ref().map(|o| o.brief()), sim.ops[a].out.as_ref().map(|o| o.brief()), sim.tail_log(40)));
+                } else {
+                    rep.add("op_results_matched_to_their_ack", 1);
+                    rep.sample(|| format!("{id}: first = {:?}, second completed with its own acknowledgement", sim.ops[a].out.as_ref().map(|o| o.brief())));
+                }
+            }
+        }
+    }
+}
+
 pub fn run(rep: &mut Rep) {
+    if rep.profile != "tsan" {
+        unwritten_requests(rep);
+    }
     if rep.profile == "tsan" {
         // the race detector has something to see only where several threads run: the single-task explorations are skipped
         rep.note("tsan: only the real-thread stress runs under ThreadSanitizer (the single-task explorations have no concurrency for it to observe)");
